@@ -9,6 +9,16 @@ from .core import AnalysisError
 from . import pyfront
 
 
+
+def _has_sym(v):
+    """an unresolved marker ("sym", text), or a tuple / list that contains one"""
+    if isinstance(v, tuple) and len(v) == 2 and v[0] == "sym" and isinstance(v[1], str):
+        return True
+    if isinstance(v, (tuple, list)):
+        return any(_has_sym(x) for x in v)
+    return False
+
+
 class Stop(Exception):
     pass
 
@@ -142,8 +152,10 @@ class Interp(object):
                 if isinstance(base, dict):
                     k = self.ev(e.args[0])
                     k = tuple(k) if isinstance(k, list) else k
-                    if not (isinstance(k, tuple) and k and k[0] == "sym"):
+                    if not _has_sym(k):
                         return base.get(k, self.ev(e.args[1]) if len(e.args) == 2 else None)
+                    # a key that was not evaluated: the lookup has no answer (not "the default")
+                    return ("sym", ast.unparse(e))
             if d in ("any", "all") and len(e.args) == 1 and not e.keywords:
                 v = self.ev(e.args[0])
                 if isinstance(v, list):
